@@ -207,7 +207,7 @@ fn helper_spelling(def_name: &str, ref_name: &str) -> String {
 }
 
 pub fn run(ctx: &Ctx) -> (Spec, Report) {
-    let n = ctx.tier.pick(2400, 40_000);
+    let n = ctx.tier.pick(5000, 60_000);
     let rep = run_rounds(
         ctx,
         "C09",
